@@ -29,9 +29,37 @@ import (
 
 // vf15MTicket is the model's view of one stored ticket.
 type vf15MTicket struct {
-	t        *refss.Ticket
-	expired  bool // issuedAt was moved back by at least the lifetime
-	restarts int  // restarts this entry has survived
+	t *refss.Ticket
+	// age is how old the ticket is according to its issuedAt, in seconds, at the
+	// harness time `stamp`: 0 at issue, set by an absolute rewrite of issuedAt,
+	// increased by every relative ageing wherever the entry lives.  It is NOT
+	// reset by a restart: a ticket does not get younger by being loaded.
+	age          int64
+	stamp        int64
+	restarts     int   // restarts this entry has survived
+	ageAtRestart int64 // age when it last survived a restart
+}
+
+// vf15AgeGuard: ageing never puts a ticket closer than this below the lifetime
+// (the property does not say which side age == lifetime is on, and real time
+// passes while a history runs); what real time does beyond that is handled at
+// connect time by validity().
+const vf15AgeGuard = 8
+
+// expired: certainly past its lifetime, whichever side the boundary is on.
+func (m vf15MTicket) expired() bool { return m.age > ticketLifetime }
+
+// validity classifies the entry at connect time: +1 certainly valid, -1
+// certainly expired, 0 too close to call because of the real time that has
+// passed since the stamp (the case is then discarded).
+func (m vf15MTicket) validity() int {
+	switch elapsed := time.Now().Unix() - m.stamp; {
+	case m.expired():
+		return -1
+	case m.age+elapsed+3 < ticketLifetime:
+		return 1
+	}
+	return 0
 }
 
 type vf15Open struct {
@@ -105,7 +133,10 @@ func (w *vf15World) connect(rt *rapid.T, addr string, how int) {
 	w.conns++
 	id := w.conns
 	mt, has := w.live[addr]
-	wantTicket := has && !mt.expired
+	if has && mt.validity() == 0 {
+		rt.Skip("real time has moved a ticket too close to its expiry to predict the handshake")
+	}
+	wantTicket := has && mt.validity() > 0
 	if has {
 		// the client removes the entry before use, valid or not, and checkpoints
 		delete(w.live, addr)
@@ -139,8 +170,8 @@ func (w *vf15World) connect(rt *rapid.T, addr string, how int) {
 			}
 			w.presented[key] = fmt.Sprintf("connection #%d to %s", id, addr)
 			switch {
-			case has && mt.expired:
-				w.failf(rt, "VIOL[c15-expired-ticket-used]: connection #%d to %s presents ticket #%d although its issuedAt is at least %d s in the past", id, addr, shown.Serial, ticketLifetime)
+			case has && mt.expired():
+				w.failf(rt, "VIOL[c15-expired-ticket-used]: connection #%d to %s presents ticket #%d although it is %d s old (lifetime %d s; it survived %d restarts, the last one at the age of %d s)", id, addr, shown.Serial, mt.age, ticketLifetime, mt.restarts, mt.ageAtRestart)
 			case !has:
 				w.failf(rt, "VIOL[c15-ticket-unexpected]: connection #%d to %s presents ticket #%d of %s, the model of the store holds none for this address", id, addr, shown.Serial, from)
 			case shown != mt.t:
@@ -169,9 +200,15 @@ func (w *vf15World) connect(rt *rapid.T, addr string, how int) {
 		}
 		w.log[len(w.log)-1] += "=T" + fmt.Sprint(mt.t.Serial)
 	} else {
-		if has && mt.expired {
+		if has && mt.expired() {
 			w.cls["expired-falls-back"] = true
 			w.nt = true
+			if mt.restarts > 0 && mt.ageAtRestart > 0 && mt.age-mt.ageAtRestart <= ticketLifetime-vf15AgeGuard {
+				// aged, restarted while still valid, aged again by less than a lifetime,
+				// total beyond the lifetime: only a client that carries issuedAt across
+				// the restart falls back here
+				w.cls["aged-restart-aged-expired"] = true
+			}
 		}
 		pad := vf15DrawPad(rt, "pad")
 		alt := rapid.Bool().Draw(rt, "sendAlt")
@@ -264,7 +301,7 @@ func (w *vf15World) issueOn(rt *rapid.T, o *vf15Open) {
 	if _, replaced := w.live[o.addr]; replaced {
 		w.cls["ticket-replaced"] = true
 	}
-	w.live[o.addr] = vf15MTicket{t: tk}
+	w.live[o.addr] = vf15MTicket{t: tk, stamp: time.Now().Unix()}
 	w.file = vf15CopyStore(w.live)
 	w.cls["issue"] = true
 }
@@ -298,8 +335,9 @@ func (w *vf15World) restart(rt *rapid.T) {
 	w.cf = cf
 	nl := map[string]vf15MTicket{}
 	for a, mt := range w.file {
-		if !mt.expired {
+		if !mt.expired() {
 			mt.restarts++
+			mt.ageAtRestart = mt.age
 			nl[a] = mt
 		}
 	}
@@ -331,19 +369,20 @@ func (w *vf15World) expireLiveAt(rt *rapid.T, addr string) {
 	if !has {
 		return
 	}
-	expire, at := vf15DrawIssuedAt(rt)
+	age := vf15DrawAge(rt)
+	now := time.Now().Unix()
 	st := w.cf.(*ssClientFactory).ticketStore
 	st.Lock()
 	if t := st.store[addr]; t != nil {
-		t.issuedAt = at
+		t.issuedAt = now - age
 	}
 	st.Unlock()
-	mt.expired = expire // a later issuedAt makes an expired entry valid again
+	mt.age, mt.stamp = age, now // a later issuedAt makes an expired entry valid again
 	w.live[addr] = mt
-	if expire {
+	if mt.expired() {
 		w.cls["expire-live"] = true
 	}
-	w.log = append(w.log, fmt.Sprintf("ageLive(%s,expired=%v)", addr, expire))
+	w.log = append(w.log, fmt.Sprintf("setAgeLive(%s,%ds)", addr, age))
 }
 
 // expireFile rewrites issuedAt of a ticket in the JSON file.
@@ -384,7 +423,8 @@ func (w *vf15World) expireFileAt(rt *rapid.T, addr string) {
 	if !has {
 		return
 	}
-	expire, at := vf15DrawIssuedAt(rt)
+	age := vf15DrawAge(rt)
+	now := time.Now().Unix()
 	path := filepath.Join(w.dir, ticketFile)
 	enc := map[string]*ssTicketJSON{}
 	if raw, err := os.ReadFile(path); err != nil || json.Unmarshal(raw, &enc) != nil || enc[addr] == nil {
@@ -393,29 +433,136 @@ func (w *vf15World) expireFileAt(rt *rapid.T, addr string) {
 		w.log = append(w.log, fmt.Sprintf("ageFile(%s: no such entry in the file)", addr))
 		return
 	}
-	enc[addr].IssuedAt = at
+	enc[addr].IssuedAt = now - age
 	out, _ := json.Marshal(enc)
 	if err := os.WriteFile(path, out, 0o600); err != nil {
 		rt.Fatalf("harness: cannot rewrite %s: %v", path, err)
 	}
-	mt.expired = expire
+	mt.age, mt.stamp = age, now
 	w.file[addr] = mt
-	if expire {
+	if mt.expired() {
 		w.cls["expire-file"] = true
 	}
-	w.log = append(w.log, fmt.Sprintf("ageFile(%s,expired=%v)", addr, expire))
+	w.log = append(w.log, fmt.Sprintf("setAgeFile(%s,%ds)", addr, age))
 }
 
-// vf15DrawIssuedAt draws a new issuedAt: either more than one lifetime in the
-// past (expired; the property does not say which side the exact boundary is
-// on, so age == lifetime is not generated) or one that leaves at least an hour
-// of validity.
-func vf15DrawIssuedAt(rt *rapid.T) (bool, int64) {
-	now := time.Now().Unix()
+// vf15DrawAge draws the age an absolute rewrite of issuedAt gives a ticket:
+// more than one lifetime (expired; age == lifetime exactly is not generated,
+// the property does not say which side the boundary is on) or one that leaves
+// at least an hour of validity.
+func vf15DrawAge(rt *rapid.T) int64 {
 	if rapid.IntRange(0, 3).Draw(rt, "stillValid") == 0 {
-		return false, now - ticketLifetime + rapid.SampledFrom([]int64{3600, 86400, ticketLifetime}).Draw(rt, "margin")
+		return ticketLifetime - rapid.SampledFrom([]int64{3600, 86400, ticketLifetime}).Draw(rt, "margin")
 	}
-	return true, now - ticketLifetime - rapid.SampledFrom([]int64{1, 2, 3600, 864000}).Draw(rt, "over")
+	return ticketLifetime + rapid.SampledFrom([]int64{1, 2, 3600, 864000}).Draw(rt, "over")
+}
+
+// safeDelta enlarges delta until no stored ticket ends up within vf15AgeGuard
+// seconds below (or exactly at) the lifetime.
+func (w *vf15World) safeDelta(delta int64) int64 {
+	inBand := func(d int64) bool {
+		for _, m := range []map[string]vf15MTicket{w.live, w.file} {
+			for _, mt := range m {
+				if a := mt.age + d; a > ticketLifetime-vf15AgeGuard && a <= ticketLifetime {
+					return true
+				}
+			}
+		}
+		return false
+	}
+	for i := 0; i < 16 && inBand(delta); i++ {
+		delta += vf15AgeGuard + 1
+	}
+	if inBand(delta) {
+		delta = 3 * ticketLifetime
+	}
+	return delta
+}
+
+// ageAll lets delta seconds pass for every stored ticket wherever it lives:
+// issuedAt of every entry of the live store and of the JSON file is moved back
+// by delta (as if the clock had advanced), and the model ages every entry by
+// the same amount.
+func (w *vf15World) ageAll(rt *rapid.T, delta int64) {
+	delta = w.safeDelta(delta)
+	st := w.cf.(*ssClientFactory).ticketStore
+	st.Lock()
+	for _, t := range st.store {
+		t.issuedAt -= delta
+	}
+	st.Unlock()
+	path := filepath.Join(w.dir, ticketFile)
+	enc := map[string]*ssTicketJSON{}
+	if raw, err := os.ReadFile(path); err == nil && json.Unmarshal(raw, &enc) == nil {
+		for _, e := range enc {
+			if e != nil {
+				e.IssuedAt -= delta
+			}
+		}
+		out, _ := json.Marshal(enc)
+		if err := os.WriteFile(path, out, 0o600); err != nil {
+			rt.Fatalf("harness: cannot rewrite %s: %v", path, err)
+		}
+	}
+	for _, m := range []map[string]vf15MTicket{w.live, w.file} {
+		for a, mt := range m {
+			mt.age += delta
+			m[a] = mt
+		}
+	}
+	w.log = append(w.log, fmt.Sprintf("age(+%ds)", delta))
+	w.cls["age"] = true
+}
+
+var vf15Epsilons = []int64{10, 20, 150, 600, 3600}
+
+// age is the action: time passes.
+func (w *vf15World) age(rt *rapid.T) {
+	if len(w.live)+len(w.file) == 0 {
+		rt.Skip("no ticket to age")
+	}
+	var delta int64
+	switch rapid.IntRange(0, 4).Draw(rt, "deltaKind") {
+	case 0:
+		delta = rapid.SampledFrom([]int64{1, 5, 30}).Draw(rt, "seconds")
+	case 1:
+		delta = ticketLifetime - rapid.SampledFrom(vf15Epsilons).Draw(rt, "lifetimeMinus")
+	case 2:
+		delta = rapid.SampledFrom(vf15Epsilons).Draw(rt, "epsilon")
+	case 3:
+		delta = ticketLifetime + rapid.SampledFrom(vf15Epsilons).Draw(rt, "lifetimePlus")
+	default:
+		delta = 86400 * rapid.Int64Range(1, 8).Draw(rt, "days")
+	}
+	w.ageAll(rt, delta)
+}
+
+// agedAcrossRestart is the life of a ticket that grows old in two steps with a
+// restart in between: the address holds a ticket; time passes but leaves it
+// valid (to lifetime - epsilon, or some days); the client restarts; time passes
+// again, by less than a lifetime, until the ticket is epsilon past its
+// lifetime; connect must fall back to UniformDH.
+func (w *vf15World) agedAcrossRestart(rt *rapid.T) {
+	addr := w.drawAddr(rt)
+	if _, has := w.live[addr]; !has {
+		w.connect(rt, addr, vf15ConnNormal)
+		w.issueOn(rt, w.open[len(w.open)-1])
+	}
+	target := ticketLifetime - rapid.SampledFrom(vf15Epsilons).Draw(rt, "before")
+	if rapid.Bool().Draw(rt, "daysBefore") {
+		target = 86400 * rapid.Int64Range(1, 6).Draw(rt, "days")
+	}
+	if d := target - w.live[addr].age; d > 0 {
+		w.ageAll(rt, d)
+	}
+	w.restart(rt)
+	if mt, has := w.live[addr]; has && !mt.expired() {
+		w.ageAll(rt, ticketLifetime-mt.age+rapid.SampledFrom([]int64{1, 10, 20, 150, 3600}).Draw(rt, "past"))
+	}
+	if rapid.IntRange(0, 3).Draw(rt, "secondRestart") == 0 {
+		w.restart(rt)
+	}
+	w.connect(rt, addr, vf15ConnNormal)
 }
 
 func TestVerifC15Histories(t *testing.T) {
@@ -423,12 +570,14 @@ func TestVerifC15Histories(t *testing.T) {
 		t.Fatalf("reference server anchors: %v", err)
 	}
 	c := vf15Evidence()
-	c.Rule("histories: rapid state machine over one state directory and three bridge addresses (two share the host; own secret and ticket authority each): connect (UniformDH response with drawn padding and 1..3 segments, or ticket handshake; then a short exchange both ways), issueTicket (NEW_TICKET on any of up to 4 open sessions, packet optionally split), closeSession, restart (sessions closed, new ClientFactory on the same directory), expire/age a ticket in the live store or in the JSON file (issuedAt moved back by more than the lifetime (1 s .. 10 d more), or to leave >= 1 h), wrongSecret, tamperResponse; model: <= 1 ticket per address, removed and checkpointed before use; oracle per connect: ticket handshake with exactly the stored ticket iff the model holds an unexpired one, otherwise UniformDH; no 112-byte ticket ever appears twice on the wire; non-trivial = a ticket that survived a restart is used, or an expired ticket falls back to UniformDH; fingerprint = seed and action log")
+	c.Rule("histories: rapid state machine over one state directory and three bridge addresses (two share the host; own secret and ticket authority each): connect (UniformDH response with drawn padding and 1..3 segments, or ticket handshake; then a short exchange both ways), issueTicket (NEW_TICKET on any of up to 4 open sessions, packet optionally split), closeSession, restart (sessions closed, new ClientFactory on the same directory), set the age of a ticket in the live store or in the JSON file absolutely (issuedAt = now - (lifetime + 1 s .. 10 d), or to leave >= 1 h), age(delta): time passes - issuedAt of EVERY entry of the live store and of the file moved back by delta in {1/5/30 s, lifetime - eps, eps, lifetime + eps, 1..8 days}, eps in {10, 20, 150, 600, 3600} s (delta enlarged so that no ticket ends within 8 s below the lifetime), agedAcrossRestart (ticket aged to lifetime - eps or some days, restart, aged to lifetime + eps', connect), wrongSecret, tamperResponse; model: <= 1 ticket per address with its age (sum of all agings since issue, NOT reset by a restart; valid iff age < lifetime, cases in which real time makes that too close to call are discarded), removed and checkpointed before use; oracle per connect: ticket handshake with exactly the stored ticket iff the model holds an unexpired one, otherwise UniformDH; no 112-byte ticket ever appears twice on the wire; non-trivial = a ticket that survived a restart is used, or an expired ticket falls back to UniformDH; fingerprint = seed and action log")
 	c.Floor("ticket-after-restart/histories", 0.30)
 	c.Floor("expired-falls-back/histories", 0.20)
 	c.Floor("ticket-handshake/histories", 0.50)
 	c.Floor("expire-file/histories", 0.15)
 	c.Floor("expire-live/histories", 0.15)
+	c.Floor("age/histories", 0.50)
+	c.Floor("aged-restart-aged-expired/histories", 0.20)
 	rapid.Check(t, func(rt *rapid.T) {
 		k := rapid.Uint64().Draw(rt, "seed")
 		detrand.Seed(k)
@@ -452,23 +601,26 @@ func TestVerifC15Histories(t *testing.T) {
 			return func(rt *rapid.T) { w.connect(rt, w.drawAddr(rt), how) }
 		}
 		rt.Repeat(map[string]func(*rapid.T){
-			"connect":        connectTo(vf15ConnNormal),
-			"connect2":       connectTo(vf15ConnNormal),
-			"connect3":       connectTo(vf15ConnNormal),
-			"issueTicket":    w.issueTicket,
-			"issueTicket2":   w.issueTicket,
-			"issueTicket3":   w.issueTicket,
-			"closeSession":   w.closeSession,
-			"restart":        w.restart,
-			"restart2":       w.restart,
-			"expireLive":     w.expireLive,
-			"expireLive2":    w.expireLive,
-			"expireFile":     w.expireFile,
-			"expireFile2":    w.expireFile,
-			"scenario":       w.scenario,
-			"scenario2":      w.scenario,
-			"wrongSecret":    connectTo(vf15ConnWrongSecret),
-			"tamperResponse": connectTo(vf15ConnTamper),
+			"connect":           connectTo(vf15ConnNormal),
+			"connect2":          connectTo(vf15ConnNormal),
+			"connect3":          connectTo(vf15ConnNormal),
+			"issueTicket":       w.issueTicket,
+			"issueTicket2":      w.issueTicket,
+			"issueTicket3":      w.issueTicket,
+			"closeSession":      w.closeSession,
+			"restart":           w.restart,
+			"restart2":          w.restart,
+			"expireLive":        w.expireLive,
+			"expireLive2":       w.expireLive,
+			"expireFile":        w.expireFile,
+			"expireFile2":       w.expireFile,
+			"scenario":          w.scenario,
+			"scenario2":         w.scenario,
+			"age":               w.age,
+			"age2":              w.age,
+			"agedAcrossRestart": w.agedAcrossRestart,
+			"wrongSecret":       connectTo(vf15ConnWrongSecret),
+			"tamperResponse":    connectTo(vf15ConnTamper),
 		})
 		cls := []string{"histories"}
 		for name, on := range w.cls {
